@@ -27,7 +27,7 @@ class PrimEnc(Stream):
     def known(self, c, o):
         p = A.parse_tag(c['tag'])
         cl = A.prim_classes(c['kind'], p, A.prim_value_size(c))
-        return ("C03:" + cl[0]) if cl else None
+        return A.class_key("C03", cl)
 
 
 class NgapEnc(Stream):
@@ -84,7 +84,7 @@ class NgapEnc(Stream):
     def known(self, c, o):
         r = self.S.root[c["root"]]
         cl = self.cls.classes(r['Type'], r['Params'], c["value"])
-        return ("C03:" + cl[0]) if cl else None
+        return A.class_key("C03", cl)
 
 
 class C03(A.AperCheck):
